@@ -292,7 +292,7 @@ def sharing_strings(ctx, rep):
 def run(ctx, rep):
     rep.rule = ("(K) c16_diff: printing of generated / hand stacks with all 16 node types in four formats incl. special constants; parsing of bingo's own "
                 "sympy/console output, of str(sympy expression) over the supported functions, of malformed strings; (oracle) round trip through the "
-                "string constructor with and without simplification, sympy strings vs sympy's own values; distinct = distinct strings")
+                "string constructor with and without simplification (constants of every magnitude, integer literals up to 2^62, print / new constants / print again), sympy strings vs sympy's own values; distinct = distinct strings")
     rep.assumptions = ["float(repr(c)) == c (shortest round-trip repr of binary64)", "the parser model is exact for ASCII input (non-ASCII input is outside the model)"]
     out = tempfile.mktemp(suffix=".json")
     env = dict(os.environ)
